@@ -32,6 +32,7 @@ static int isprime_l(long n) { if (n < 2) return 0; for (long d = 2; d * d <= n;
 static long powl_(long b, long e, long p) { __int128 r = 1, x = b % p; while (e) { if (e & 1) r = r * x % p; x = x * x % p; e >>= 1; } return (long)r; }
 static long sqrtl_(long v, long p) { for (long y = 0; y <= p / 2; y++) if ((__int128)y * y % p == v) return y; return -1; }
 
+static int find_soft = 0; /* set: find_curve returns without a new entry instead of exiting */
 /* kind: 0 prime order; 1 order = 2 * prime or 4 * prime (has a point with y = 0); want16: order must have the bit length of p */
 static void find_curve(const char *name, long p, long a, int endom, int kind, int samelen) {
 	signed char *leg = malloc((size_t)p);
@@ -66,6 +67,7 @@ static void find_curve(const char *name, long p, long a, int endom, int kind, in
 		ntc++; free(leg); return;
 	}
 	free(leg);
+	if (find_soft) return;
 	fprintf(stderr, "no tiny curve found for %s\n", name); exit(2);
 }
 
